@@ -710,6 +710,10 @@ func (vfs *MemFS) Remove(name string) error {
 	child.Lock()
 	defer child.Unlock()
 
+	if parent.stickyFor(vfs.User()) && !child.isOwner(vfs.User()) {
+		return &fs.PathError{Op: op, Path: name, Err: vfs.err.OpNotPermitted}
+	}
+
 	if c, ok := child.(*dirNode); ok {
 		if len(c.children) != 0 {
 			return &fs.PathError{Op: op, Path: name, Err: vfs.err.DirNotEmpty}
@@ -840,6 +844,17 @@ func (vfs *MemFS) Rename(oldpath, newpath string) error {
 		return &os.LinkError{Op: op, Old: oldpath, New: newpath, Err: vfs.err.PermDenied}
 	}
 
+	// The owner of the renamed entry matters only in a directory with the sticky bit.
+	if oParent.stickyFor(vfs.User()) && oChild != node(oParent) {
+		oChild.Lock()
+		owner := oChild.isOwner(vfs.User())
+		oChild.Unlock()
+
+		if !owner {
+			return &os.LinkError{Op: op, Old: oldpath, New: newpath, Err: vfs.err.OpNotPermitted}
+		}
+	}
+
 	if nParent != oParent {
 		nParent.mu.Lock()
 		defer nParent.mu.Unlock()
@@ -893,12 +908,30 @@ func (vfs *MemFS) Rename(oldpath, newpath string) error {
 		switch nc := nChild.(type) {
 		case *fileNode:
 			nc.mu.Lock()
-			nc.delete()
+
+			denied := nParent.stickyFor(vfs.User()) && !nc.isOwner(vfs.User())
+			if !denied {
+				nc.delete()
+			}
+
 			nc.mu.Unlock()
+
+			if denied {
+				return &os.LinkError{Op: op, Old: oldpath, New: newpath, Err: vfs.err.OpNotPermitted}
+			}
 		case *symlinkNode:
 			nc.mu.Lock()
-			nc.delete()
+
+			denied := nParent.stickyFor(vfs.User()) && !nc.isOwner(vfs.User())
+			if !denied {
+				nc.delete()
+			}
+
 			nc.mu.Unlock()
+
+			if denied {
+				return &os.LinkError{Op: op, Old: oldpath, New: newpath, Err: vfs.err.OpNotPermitted}
+			}
 		default:
 			err := error(avfs.ErrFileExists)
 			if vfs.OSType() == avfs.OsWindows {
